@@ -45,6 +45,17 @@ class Wn(NativeModel):
         self.N, self.L = [], []
         self.new_junctions, self.new_pipes = [], []
         self.reg = NodeReg(self)
+        self.other_calls = []
+
+    def __getattr__(self, name):
+        # any other method of the model (reset_initial_values, remove_link, add_pattern, ...): recorded, and no post-condition tolerates one -
+        # the operation is specified as: read the tables, add the junction(s) and one pipe, nothing else
+        if name.startswith("_") or name in ("fields", "cls"):
+            raise AttributeError(name)
+
+        def other(*a, **k):
+            self.other_calls.append(name)
+        return other
 
     def nodes(self):
         return list(self.N)
@@ -143,8 +154,9 @@ def _case(flag, at_end, skind, ekind, cv, return_copy):
             pipe = target.pipe
             posts = [("result_is_the_model_worked_on", out.value is target)]
             if return_copy:
-                touched_orig = [x for x in cx.path.writes if x[0] in (orig.pipe, orig.a, orig.b, orig.other)] or orig.new_junctions or orig.new_pipes or orig.reg.added or orig.reg.removed
+                touched_orig = [x for x in cx.path.writes if x[0] in (orig.pipe, orig.a, orig.b, orig.other)] or orig.new_junctions or orig.new_pipes or orig.reg.added or orig.reg.removed or orig.other_calls
                 posts.append(("input_model_untouched_when_return_copy", not touched_orig))
+            posts.append(("nothing_else_of_the_model_is_called_upon", not target.other_calls and not orig.other_calls))
             nj = target.new_junctions
             posts.append(("junction_count_split_1_break_2", len(nj) == (2 if flag == "BREAK" else 1) and len(target.new_pipes) == 1))
             if len(target.new_pipes) != 1 or not nj:
@@ -355,6 +367,9 @@ def _skeletonize(tier, seed):
         wn.options.time.pattern_timestep = 3600
         wn.add_pattern("use", [1.0, 1.5, 0.5, 2.0, 0.8, 1.2])
         wn.add_pattern("inj", [0.0, 1.0, 2.0, 1.0, 0.5, 0.0, 3.0])
+        if k % 4 >= 2:
+            # a default demand pattern that is not identically 1; entries made constant afterwards (pattern None) must stay constant when moved
+            wn.options.hydraulic.pattern = "use"
         wn.add_reservoir("R", base_head=60.0, coordinates=(0, 0))
         n = rng.randint(5, 9)
         names = ["R"]
@@ -365,6 +380,8 @@ def _skeletonize(tier, seed):
             del j.demand_timeseries_list[:]
             for e in range(rng.randint(0, 3)):
                 j.add_demand(rng.choice([-0.002, -0.0005, 0.0, 0.001, 0.003]), rng.choice([None, "use", "inj"]), category=rng.choice([None, "a", "b"]))
+                if k % 4 >= 2 and rng.random() < 0.4:
+                    j.demand_timeseries_list[-1].pattern_name = None
             parent = rng.choice(names)
             wn.add_pipe("P%d" % i, parent, nm, length=rng.choice([50.0, 120.0]), diameter=rng.choice([3 * inch, 10 * inch]), roughness=100)
             names.append(nm)
@@ -442,7 +459,7 @@ def _skeletonize(tier, seed):
                     samples.append(dict(net=rel, threshold_m=thr, options=opts, nodes_before=wn.num_nodes, nodes_after=w2.num_nodes))
     return dict(evaluations=evals, distinct_nontrivial=len(distinct), failures=failures[:10], samples=samples, exhaustive=False,
                 scope="%s (Net2 carries a quality source on a dead-end junction) x 4 diameter thresholds x 4 operation subsets (generated networks also with random pipes_to_exclude / junctions_to_exclude, controls on pipes incl. a parallel twin, small valves on dead ends and in line): tanks/reservoirs/pumps/valves/control elements kept, protected pipes unaltered, "
-                      "total expected demand per time conserved, skeleton map is a partition of the original nodes onto the retained ones" % (", ".join(n.split('/')[-1] for n in nets if not n.startswith("generated:")) + " and %d generated networks with inflow / zero / multi-entry demands" % ngen))
+                      "total expected demand per time conserved, skeleton map is a partition of the original nodes onto the retained ones" % (", ".join(n.split('/')[-1] for n in nets if not n.startswith("generated:")) + " and %d generated networks with inflow / zero / multi-entry demands, half of them with a non-trivial default pattern and constant (pattern None) entries" % ngen))
 
 
 BOUNDED = [Bounded("C19.split_break_with_vertices", P, _split_vertices, kind="random polylines, run-time contract"),
